@@ -1,0 +1,61 @@
+//! Verification hooks. Only compiled with `--cfg grmtools_verif`; never part of a normal build.
+use std::{
+    cell::Cell,
+    sync::atomic::{AtomicU64, Ordering},
+    time::Duration,
+};
+
+static RECOVERY_BUDGET_MS: AtomicU64 = AtomicU64::new(0);
+
+thread_local! {
+    static STEPS_LEFT: Cell<u64> = const { Cell::new(u64::MAX) };
+    static STEPS_USED: Cell<u64> = const { Cell::new(0) };
+}
+
+/// Override the wall-clock recovery budget (process wide). `0` restores the built-in default.
+pub fn set_recovery_budget_ms(ms: u64) {
+    RECOVERY_BUDGET_MS.store(ms, Ordering::SeqCst);
+}
+
+pub(crate) fn recovery_budget() -> Option<Duration> {
+    match RECOVERY_BUDGET_MS.load(Ordering::SeqCst) {
+        0 => None,
+        ms => Some(Duration::from_millis(ms)),
+    }
+}
+
+/// Give the calling thread a deterministic budget of recovery steps (`u64::MAX` = unlimited).
+/// The budget is shared by all errors of the parses subsequently run on this thread, just as the
+/// wall-clock budget is shared by all errors of one parse, so set it before every parse.
+pub fn set_recovery_step_budget(steps: u64) {
+    STEPS_LEFT.with(|c| c.set(steps));
+    STEPS_USED.with(|c| c.set(0));
+}
+
+/// Number of recovery steps consumed on this thread since the budget was last set.
+pub fn recovery_steps_used() -> u64 {
+    STEPS_USED.with(|c| c.get())
+}
+
+/// Was the step budget of this thread used up?
+pub fn recovery_step_budget_exhausted() -> bool {
+    STEPS_LEFT.with(|c| c.get()) == 0
+}
+
+/// Consume one step; `true` means "the budget is spent: behave as if the deadline had passed".
+pub(crate) fn tick() -> bool {
+    STEPS_USED.with(|c| c.set(c.get().saturating_add(1)));
+    STEPS_LEFT.with(|c| match c.get() {
+        0 => true,
+        u64::MAX => false,
+        n => {
+            c.set(n - 1);
+            false
+        }
+    })
+}
+
+/// `N` of Corchuelo et al.: the number of shifts that make a repair a success.
+pub const PARSE_AT_LEAST: usize = crate::cpctplus::VERIF_PARSE_AT_LEAST;
+/// How far candidate repairs are parsed on when ranking them.
+pub const TRY_PARSE_AT_MOST: usize = crate::cpctplus::VERIF_TRY_PARSE_AT_MOST;
